@@ -19,8 +19,15 @@ Property: arenas bound concurrency, give unique slots, respect the worker budget
   flag is set; `out_of_work` with no enqueued task left withdraws the request on every path (`mandatory_*`),
 * scheduler observers: per thread and observer, entries and exits alternate, every entry of a still active observer gets its
   exit when the thread leaves (`observer_balanced`).
-Not covered by theorems here (see the evidence file): the transient per-arena overshoot of `try_join`, the resume stream,
-bypassed tasks and the re-spawn of a stolen task when a critical task is found (DESIGN.md §3 C16).
+* isolation as a STACK discipline (`Model/C16Nest.lean`): `isolate_within_arena` nested at will, leaving normally or by exception, per
+  task dispatcher (coroutines), `task_arena::execute` inside a region, the resume stream, bypassed tasks, the critical task that
+  displaces a held task; ghost region ids distinct from the tag words (addresses, re-usable): `isolation_restored_on_exit`,
+  `isolation_word_is_stack_function`, `isolation_respected_nested`, `isolation_tag_reuse_safe`, `resume_stream_exempt_safe`,
+* the life cycle of a thread in an arena at access level (`Model/C16Life.lean`): admission through `my_references` (check-then-add),
+  slot occupation, recall, leaving, with the allotment changing under it: `slots_unique_lifecycle`, `references_exact`,
+  `workers_inside_bounded`, `admission_recall_consistent`.
+Not covered by theorems here (see the evidence file): per-arena `num_workers_active() ≤ allotted` does NOT hold (transient overshoot of
+`try_join`, demonstrated by an `example` and observed in the validated traces); what holds instead is `workers_inside_bounded`.
 -/
 import TbbVerif.Proofs.C16.Allot
 import TbbVerif.Proofs.C16.Serializer
@@ -31,6 +38,9 @@ import TbbVerif.Proofs.C16.World
 import TbbVerif.Proofs.C16.IsoInv
 import TbbVerif.Proofs.C16.IsoCons
 import TbbVerif.Proofs.C16.Mand
+import TbbVerif.Proofs.C16.NestThm
+import TbbVerif.Proofs.C16.NestAdj
+import TbbVerif.Proofs.C16.LifeCount
 import TbbVerif.Proofs.C16.Obs
 
 namespace TbbVerif.C16
@@ -369,6 +379,201 @@ theorem isolation_filters_pass_nonisolated (tag : Nat) :
     (!Generated.C16.isoCritSpecific (Generated.C16.isoArgCrit1 0) || Generated.C16.isoCritMatch true (Iso.argCrit 0) tag) = true :=
   Iso.gen_nonisolated tag
 
+
+/-! ## isolation as a stack discipline (`isolate_within_arena` nested at will, per task dispatcher) -/
+
+/-- **isolation_restored_on_exit.**  Any reachable state `s0`, thread `t` attached to dispatcher `d` (word `dp0.ed`, frame stack
+`dp0.stack`), calls `isolate_within_arena` (explicit tag `x` or the address `f`); *anything* happens (`body`: nested isolates, waits,
+takes, spawns, other threads, stack switches …) and the call is about to return on that dispatcher — its region frame is on top of the
+stack it was called on.  Then after the return, **normal or by exception** (`thrown`), the dispatcher's isolation word and stack are
+those of the call site; that word is `ctxTag` of the stack, i.e. the tag of the innermost enclosing region (0 inside
+`task_arena::execute` or at the bottom of a dispatcher, the running task's tag inside a task); and a dispatch loop entered next
+(`tg.wait()`, `parallel_for` … after a NESTED `isolate` returned) has exactly that word as its isolation constant.  What
+`isolate_within_arena` saves, when, how the completion lambda captures it and on which paths it runs are the generated definitions
+(`isoPrevInit`, `isoBodyAssignsPrev`, `isoCompletionByRef`, `isoRestoreOnReturn/Throw`; lemmas `gen_captured`, `gen_restore*`). -/
+theorem isolation_restored_on_exit (n : Nat) (pre body : List Nest.NOp) (t x f : Nat) (thrown : Bool) (d : Nat) (dp0 dp2 : Nest.Disp) :
+    let s0 := (Nest.NSt.init n).run pre
+    let s2 := (s0.step (.isolate t x f)).run body
+    s0.dispOf t = some (d, dp0) → s2.dispOf t = some (d, dp2) →
+    (∃ p sr r tg e, dp2.stack = Nest.Fr.region p sr r tg e :: dp0.stack) →
+    (∃ dp3, (s2.step (.endIsolate t thrown)).dispOf t = some (d, dp3) ∧ dp3.ed = dp0.ed ∧ dp3.stack = dp0.stack ∧
+      ∃ dp4 g se sr c, ((s2.step (.endIsolate t thrown)).step (.wait t)).dispOf t = some (d, dp4) ∧
+        dp4.stack = Nest.Fr.loop dp0.ed g se sr c false :: dp0.stack) ∧
+    dp0.ed = Nest.ctxTag dp0.stack := by
+  intro s0 s2 h0 h2 ⟨p, sr, r, tg, e, hst⟩
+  have i0 : Nest.NInv s0 := Nest.NInv.reach n pre
+  have i2 : Nest.NInv s2 := (i0.step _).run body
+  obtain ⟨h3, hctx⟩ := Nest.restored i0 i2 h0 h2 hst thrown
+  exact ⟨⟨_, h3, rfl, rfl, _, _, _, _, _, Nest.wait_after h3, rfl⟩, hctx⟩
+
+/-- **isolation_word_is_stack_function.**  In every reachable state, on every task dispatcher (default dispatchers of the slots and
+coroutines alike) the isolation word equals `ctxTag` of its frame stack and every frame on the stack saved the `ctxTag` of the frames
+below it.  In particular a dispatcher at rest (empty stack: a slot a worker is about to join, a cached coroutine) carries
+`no_isolation`, and a functor run by `task_arena::execute` starts without isolation whatever the caller's region was. -/
+theorem isolation_word_is_stack_function (n : Nat) (ops : List Nest.NOp) :
+    ∀ dp ∈ ((Nest.NSt.init n).run ops).disps, dp.ed = Nest.ctxTag dp.stack ∧ Nest.WFS dp.stack ∧ (dp.stack = [] → dp.ed = 0) := by
+  intro dp hdp
+  have h := (Nest.NInv.reach n ops).disps dp hdp
+  exact ⟨h.2.2.2.1, h.2.2.2.2, fun he => by rw [h.2.2.2.1, he]; rfl⟩
+
+/-- **isolation_respected_nested.**  For every number of slots and every sequence of operations (dispatch loops, `isolate` with
+address or explicit tags nested at will, returning normally or by exception, `task_arena::execute`, spawns, every take point incl. the
+critical task that displaces a stolen / bypassed / initial task, bypassed tasks, resume tasks, new coroutines and arbitrary stack
+switches): every task a dispatch loop starts (resume tasks excepted) is started under an isolation constant `e.iso` that is `ctxTag`
+of the frames below the loop — the tag of the innermost `isolate` region the waiting code is in — and, if that is not `no_isolation`,
+the dispatcher's isolation word while the task runs (`e.edAt`: the word every spawn of that task copies) equals it; for a task that
+was taken from a container this word is the task's own tag.  (For a bypassed task this is the code's assertion
+`isolation == no_isolation || isolation == ed.isolation`.) -/
+theorem isolation_respected_nested (n : Nat) (ops : List Nest.NOp) :
+    ∀ e ∈ ((Nest.NSt.init n).run ops).log, e.resume = false →
+      e.iso = Nest.ctxTag e.below ∧ (e.iso = 0 ∨ e.edAt = e.iso) ∧ (e.bypass = false → e.edAt = e.task.tag) := by
+  intro e he hr
+  have h := ((Nest.NInv.reach n ops).log e he).1 hr
+  exact ⟨h.1, h.2.1, h.2.2.1⟩
+
+/-- **isolation_tag_reuse_safe.**  What holds when tag values are re-used (the tag is the address of a stack object: a later region
+entered at the same stack depth gets the same word).  Regions are identified by ghost ids.  Whenever a loop waiting in region
+`e.ghost` under a non-zero isolation constant starts a task spawned in region `e.task.region`, then either the two regions are the
+same; or one of them was **no longer live** at that moment (its `isolate` call had returned: the task outlived its region and a later
+region re-used the tag, or the waiting code itself is a task that outlived its region); or both tags were passed explicitly
+(`isolated_task_group`, `collaborative_call_once`: sharing is the purpose).  Hence, for address tags: if every region's tasks finish
+before its `isolate` call returns (`tLive ∧ gLive` at every take — true for every parallel algorithm and every `task_group` waited
+for inside the region), a thread waiting inside a region executes only tasks of *that* region.  The remaining case is real: see the
+`example` below (a task of an ended region executed by the waiter of a later region with the same address) and the known finding
+`isolation-tag-reuse-foreign-task-in-later-region` (reproduced on the real library). -/
+theorem isolation_tag_reuse_safe (n : Nat) (ops : List Nest.NOp) :
+    ∀ e ∈ ((Nest.NSt.init n).run ops).log, e.resume = false → e.iso ≠ 0 →
+      (e.task.region = e.ghost ∨ e.tLive = false ∨ e.gLive = false ∨ e.bothExpl = true) ∧
+      (e.tLive = true → e.gLive = true → e.bothExpl = false → e.task.region = e.ghost) := by
+  intro e he hr hne
+  have h := (((Nest.NInv.reach n ops).log e he).1 hr).2.2.2 hne
+  refine ⟨h, fun h1 h2 h3 => ?_⟩
+  rcases h with h | h | h | h
+  · exact h
+  · rw [h1] at h; cases h
+  · rw [h2] at h; cases h
+  · rw [h3] at h; cases h
+
+/-- **isolation_direct_wait.**  The literal case of the property — *a thread that waits inside `this_task_arena::isolate`*: the
+dispatch loop was entered directly from the functor of an `isolate` call (the frame under the loop is that call's region frame, region
+`r`, tag `τ`).  Then the loop's isolation constant is `τ`, the ghost region it waits in is `r`, and `r` is live; so every task it starts
+carries tag `τ` and was spawned in region `r` itself — or in an earlier region that had ended before (its `isolate` call had returned
+while the task was still pending) and whose tag was the same word — or both regions were entered with the same explicit tag. -/
+theorem isolation_direct_wait (n : Nat) (ops : List Nest.NOp) :
+    ∀ e ∈ ((Nest.NSt.init n).run ops).log, e.resume = false → ∀ p s r τ x rest, e.below = Nest.Fr.region p s r τ x :: rest →
+      e.iso = τ ∧ e.ghost = r ∧ e.gLive = true ∧ (τ = 0 ∨ e.edAt = τ) ∧
+      (τ ≠ 0 → e.task.region = r ∨ e.tLive = false ∨ e.bothExpl = true) := by
+  intro e he hr p s r τ x rest hb
+  have h1 := ((Nest.NInv.reach n ops).log e he).1 hr
+  have h2 := (((Nest.AInv.init n).run ops).log e he) p s r τ x rest hb
+  have hiso : e.iso = τ := by rw [h1.1, hb]; rfl
+  refine ⟨hiso, h2.1, h2.2, by rw [← hiso]; exact h1.2.1, fun hne => ?_⟩
+  have := h1.2.2.2 (by rw [hiso]; exact hne)
+  rw [h2.1, h2.2] at this
+  rcases this with h | h | h | h
+  · exact Or.inl h
+  · exact Or.inr (Or.inl h)
+  · cases h
+  · exact Or.inr (Or.inr h)
+
+/-- **resume_stream_exempt_safe.**  The resume stream is read without any isolation test.  What follows: a resume task carries
+`no_isolation` and belongs to no region; taking it leaves the taker's dispatcher with `no_isolation` as the running task's tag
+(nothing a resume task does is tagged); it changes no other dispatcher, and attaching a thread to another dispatcher (the stack
+switch of suspend / resume / recall) changes no dispatcher at all — the resumed stack continues with its own isolation word and frame
+stack, and by `isolation_word_is_stack_function` that word is still `ctxTag` of its stack. -/
+theorem resume_stream_exempt_safe (n : Nat) (ops : List Nest.NOp) :
+    let s := (Nest.NSt.init n).run ops
+    (∀ e ∈ s.log, e.resume = true → e.task.tag = 0 ∧ e.task.region = 0 ∧ e.edAt = 0) ∧
+    (∀ t k d dp d', s.dispOf t = some (d, dp) → d' ≠ d → (s.step (.popResume t k)).disps[d']? = s.disps[d']?) ∧
+    (∀ t d, (s.step (.attach t d)).disps = s.disps) := by
+  intro s
+  refine ⟨fun e he hr => ((Nest.NInv.reach n ops).log e he).2 hr, ?_, fun t d => Nest.attach_disps s t d⟩
+  intro t k d dp d' h hne
+  exact Nest.popResume_others h d' hne
+
+
+/-! ## the life cycle of a thread in an arena: admission through `my_references`, slot, recall, leaving -/
+
+/-- **slots_unique_lifecycle / slots_bound_lifecycle.**  "Executing inside the arena" = owning a slot (from the successful
+`try_occupy` exchange to the `release()` store).  For every arena shape, any number of worker and application threads, and every
+interleaving (one step per atomic access) of `is_joinable()` probes, `try_join` (check-then-add on `my_references`),
+`occupy_free_slot`, `is_recall_requested()` polls, `release()`, `on_thread_leaving`, allotment changes by the market at any moment,
+and references taken / dropped by `task_arena` objects, coroutines and `r1::resume`: a slot is owned by at most one thread, owned
+indices are `< num_slots` and marked occupied, a worker never owns a reserved slot, the threads inside number exactly the occupied
+slots, hence at most `num_slots` (= `max_concurrency`; 2 for a one-thread arena: the extra worker of the property text) — also
+while more workers have *joined* than the arena is allotted (the transient overshoot of `try_join`). -/
+theorem slots_unique_lifecycle (cfg : SCfg) (threads : List (Bool × List Nat)) (ext0 : Nat) (ops : List Life.LOp) :
+    let s := (Life.LSt.init cfg threads ext0).run cfg ops
+    (∀ (t1 t2 i : Nat) (th1 th2 : Life.LTh), s.ths[t1]? = some th1 → s.ths[t2]? = some th2 → th1.sth.slot = some i → th2.sth.slot = some i → t1 = t2) ∧
+    (∀ (t i : Nat) (th : Life.LTh), s.ths[t]? = some th → th.sth.slot = some i →
+      i < cfg.numSlots ∧ s.occ[i]? = some true ∧ (th.sth.worker = true → cfg.reserved ≤ i)) ∧
+    s.inside = s.occ.count true ∧ s.inside ≤ cfg.numSlots := by
+  intro s
+  have h : Life.LInv cfg s := (Life.LInv.init cfg threads ext0).run cfg ops
+  refine ⟨?_, ?_, ?_, ?_⟩
+  · intro t1 t2 i th1 th2 h1 h2 hs1 hs2
+    exact h.slots.uniq t1 t2 th1.sth th2.sth i (Life.proj_get h1) (Life.proj_get h2) hs1 hs2
+  · intro t i th h1 hs
+    exact h.slots.own t th.sth i (Life.proj_get h1) hs
+  · have := h.slots.cnt
+    simpa [Life.LSt.inside, Life.LSt.proj, List.countP_map, Function.comp_def] using this
+  · have hc := h.slots.cnt
+    have hl := h.slots.len
+    have : s.inside = s.occ.count true := by
+      simpa [Life.LSt.inside, Life.LSt.proj, List.countP_map, Function.comp_def] using hc
+    rw [this]
+    have : s.occ.length = cfg.numSlots := by simpa [Life.LSt.proj] using hl
+    rw [← this]
+    exact List.count_le_length
+
+/-- **references_exact.**  Under every interleaving the worker field of `my_references` equals the number of threads that hold a
+worker reference (joined by `try_join`, not yet through `on_thread_leaving`) plus the `r1::resume` calls in flight — no reference is
+lost or counted twice, so the field is 0 exactly when no such thread exists (the arena is not destroyed under a worker) — and
+`num_workers_active()` is that number (plus the carry of the external field, 0 while fewer than `2^ref_external_bits` external
+references exist). -/
+theorem references_exact (cfg : SCfg) (threads : List (Bool × List Nat)) (ext0 : Nat) (ops : List Life.LOp) :
+    let s := (Life.LSt.init cfg threads ext0).run cfg ops
+    s.refsW = s.holders + s.transient ∧
+    Life.active s.refs = s.refsE / Life.refWorker + (s.holders + s.transient) ∧
+    (s.refsE < Life.refWorker → Life.active s.refs = s.holders + s.transient) := by
+  intro s
+  have h : Life.LInv cfg s := (Life.LInv.init cfg threads ext0).run cfg ops
+  have ha := Life.active_refs s
+  rw [h.refs] at ha
+  refine ⟨h.refs, ha, fun hlt => ?_⟩
+  rw [ha, Nat.div_eq_of_lt hlt]; exact Nat.zero_add _
+
+/-- **workers_inside_bounded.**  The strongest bound that holds at every instant for the workers *inside* an arena (owning a slot):
+every one of them holds a worker reference, so they number at most `num_workers_active()`; and they number at most
+`num_slots − reserved` (= `my_max_num_workers`, or the one slot kept for the mandatory worker of a one-thread arena), whatever the
+allotment.  What does **not** hold is `num_workers_active() ≤ my_num_workers_allotted`: `try_join` is check-then-add (see the
+example below: two workers pass the check against an allotment of 1, both add); the excess is bounded by the slots as stated and is
+corrected by recall — a worker whose `is_recall_requested()` poll sees `active > allotted` is the only kind of worker that leaves
+(`exit_` is enabled for a worker only after such a poll). -/
+theorem workers_inside_bounded (cfg : SCfg) (threads : List (Bool × List Nat)) (ext0 : Nat) (ops : List Life.LOp) :
+    let s := (Life.LSt.init cfg threads ext0).run cfg ops
+    (∀ (t : Nat) (th : Life.LTh), s.ths[t]? = some th → th.sth.worker = true → th.sth.slot.isSome = true → th.holdsRef = true) ∧
+    s.workersInside ≤ s.holders ∧ s.workersInside ≤ Life.active s.refs ∧ s.workersInside ≤ cfg.numSlots - cfg.reserved := by
+  intro s
+  have h : Life.LInv cfg s := (Life.LInv.init cfg threads ext0).run cfg ops
+  have h1 := Life.workersInside_le_holders h
+  refine ⟨fun t th hth hw hs => Life.worker_inside_holds h hth hw hs, h1, ?_, Life.workersInside_le h⟩
+  have ha := Life.active_refs s
+  rw [h.refs] at ha
+  generalize s.refsE / Life.refWorker = q at ha
+  omega
+
+/-- **admission_recall_consistent.**  The two generated comparisons (`is_joinable`: `num_workers_active() < allotted`,
+`is_recall_requested`: `num_workers_active() > allotted`) fit together: a worker admitted by a passing check does not find itself
+recalled (absent other joiners and allotment changes), and after a recalled worker has left the arena is not joinable again — at a
+fixed allotment the population neither oscillates nor exceeds the allotment by the admission rule alone (an off-by-one in either
+comparison breaks this). -/
+theorem admission_recall_consistent (act allot : Nat) :
+    (Generated.C16.joinableCond act allot = true → Generated.C16.recallCond (act + 1) allot = false) ∧
+    (Generated.C16.recallCond (act + 1) allot = true → Generated.C16.joinableCond act allot = false) ∧
+    (Generated.C16.joinableCond act allot = true ↔ act < allot) := by
+  refine ⟨?_, ?_, ?_⟩ <;> simp [Generated.C16.joinableCond, Generated.C16.recallCond] <;> omega
+
 /-! ## mandatory concurrency -/
 
 /-- **mandatory_balanced.** Any number of threads run any programs of `enqueue` / `spawn` / `out_of_work` / fifo pops / leaving
@@ -482,6 +687,37 @@ example : (((Iso.ISt.init 2).run [.wait 0, .wait 1, .spawn 0, .isolate 0 7, .spa
 non-isolated sender from the pool handle -/
 example : (((Iso.ISt.init 2).run [.wait 0, .wait 1, .isolate 0 7, .spawnAff 0 1, .isolate 1 9, .wait 1, .mailbox 1, .endIsolate 0,
     .own 0]).log.map (fun e => (e.thread, e.task.id, e.iso))) = [(0, 0, 0)] := by decide
+
+
+/-- nested isolation: thread 0 spawns task 0 outside, opens region 1 (tag 7), spawns task 1, opens the nested region 2 (tag 9), spawns
+task 2, the nested region is left BY EXCEPTION; a wait in the enclosing region takes task 1 only (isolation 7 again: tasks 2 and 0 are
+skipped); thread 1 (not isolated) steals task 0 -/
+example : (((Nest.NSt.init 2).run [.wait 0, .wait 1, .spawn 0, .isolate 0 0 7, .spawn 0, .isolate 0 0 9, .spawn 0, .endIsolate 0 true,
+    .wait 0, .own 0, .own 0, .own 0, .steal 1 0]).log.map (fun e => (e.thread, e.task.id, e.iso, e.below.length))) = [(0, 1, 7, 2), (1, 0, 0, 0)] := by
+  decide
+
+/-- tag re-use: region 1 (tag 7) spawns task 0 and returns without waiting; region 2 is entered at the same address (tag 7 again);
+its waiter takes task 0 — a task of region 1, which is no longer live -/
+example : (((Nest.NSt.init 1).run [.wait 0, .isolate 0 0 7, .spawn 0, .endIsolate 0 false, .isolate 0 0 7, .wait 0, .own 0]).log.map
+    (fun e => (e.task.id, e.iso, e.task.region, e.ghost, e.tLive, e.gLive))) = [(0, 7, 1, 2, false, true)] := by decide
+
+/-- a live tag is not handed out twice (environment assumption of `isolate`): the second and third `isolate` are rejected -/
+example : (((Nest.NSt.init 2).run [.wait 0, .isolate 0 0 7, .isolate 0 0 7, .wait 1, .isolate 1 0 7]).disps.map (·.stack.length)) = [2, 1] := by
+  decide
+
+/-- `task_arena::execute` inside a region: the functor runs without isolation, the region's word is back afterwards; a resume task is
+taken by an isolated waiter (no filter) and leaves `no_isolation` as the running tag; a bypassed task runs under the previous task's word -/
+example : (let s := (Nest.NSt.init 1).run [.wait 0, .isolate 0 0 7, .execBegin 0, .spawn 0, .execEnd 0, .spawn 0, .resumeReq 0, .wait 0, .popResume 0 0,
+      .own 0, .bypass 0 none]
+    (s.log.map (fun e => (e.task.id, e.iso, e.edAt, e.resume, e.bypass)), s.spawned.map (·.tag))) =
+    ([(0, 7, 0, true, false), (1, 7, 7, false, false), (2, 7, 7, false, true)], [0, 7, 7]) := by decide
+
+
+/-- the transient overshoot of `try_join`: arena with 3 slots (1 reserved), allotment 1, two workers: both read `my_references`
+(0 workers) and the allotment (1) before either adds; both add; both get a slot: 2 workers are active and inside although 1 is
+allotted.  The next recall poll of either sees 2 > 1. -/
+example : (let s := (Life.LSt.init ⟨3, 1⟩ [(true, [0]), (true, [0])] 1).run ⟨3, 1⟩ [.setAllot 1, .begin_ 0, .begin_ 1, .th 0, .th 1, .th 0, .th 1, .th 0, .th 0, .th 0, .th 0, .th 1, .th 1, .th 1, .th 1, .th 1, .th 1, .poll 0, .th 0]
+    (s.allot, s.refsW, s.workersInside, s.ths.map (·.recalled))) = (1, 2, 2, [true, false]) := by decide
 
 /-- mandatory concurrency: a worker-less arena (`task_arena(1)`: 2 slots, 1 reserved, no workers); thread 0 enqueues, thread 1 pops the
 task and polls `out_of_work`: request 1, then back to 0 -/
